@@ -74,6 +74,11 @@ pub enum OpKind {
     },
     Render {
         color: bool,
+        /// 0: the report is rendered against its own source under the usual file name; 1: against
+        /// the first half of the source (the file was truncated meanwhile); 2: against an empty
+        /// source; 3: under another file name
+        #[serde(default, skip_serializing_if = "is_zero")]
+        foreign: u8,
     },
 }
 
@@ -329,7 +334,7 @@ fn gen_plain_op(r: &mut Rng, nparsers: usize, ninputs: usize, sw: &Swarm) -> Op 
             max_den: *r.pick(&[2u8, 4, 8, 16, 64]),
             max_whole: *r.pick(&[0u32, 5, 100]),
         },
-        _ => OpKind::Render { color: r.chance(1, 2) },
+        _ => OpKind::Render { color: r.chance(1, 2), foreign: if r.chance(1, 3) { r.range(1, 3) as u8 } else { 0 } },
     };
     Op { kind, parser, input, faults: vec![], align: 0 }
 }
